@@ -115,16 +115,25 @@ def gen_jobs(ctx, rng):
                          "chunkings": chunkings(5, True)})
         # crosstab 2-D
         cats = sorted({v for row in values for v in row if not isinstance(v, str) and v != nodata})
-        for _k in range(1 if quick else 2):
+        # 2-D crosstab: always (count, random selection), (percentage, a PROPER subset of the categories - the
+        # denominator must stay the zone's total valid cells), (percentage, everything, zone subset)
+        variants = [("count", "random"), ("percentage", "proper"), ("percentage", "all")]
+        if not quick:
+            variants += [("count", "proper"), ("percentage", "random")]
+        for agg, mode in variants:
             zid = None
             cid = None
             if rng.random() < 0.4:
                 zid = sorted(rng.sample(present, rng.randrange(1, len(present) + 1)))
-            if rng.random() < 0.4 and cats:
+            if mode == "random" and rng.random() < 0.4 and cats:
                 cid = sorted(rng.sample(cats, rng.randrange(1, len(cats) + 1)))
+            elif mode == "proper" and len(cats) >= 2:
+                cid = sorted(rng.sample(cats, rng.randrange(1, len(cats))))
+                if rng.random() < 0.5:
+                    cid = cid[::-1]
             jobs.append({"kind": "crosstab", "zones": zones, "values": values, "nodata": nodata, "zone_ids": zid,
-                         "cat_ids": cid, "agg": rng.choice(["count", "percentage"]), "zdtype": zdtype,
-                         "vdtype": vdtype, "H": H, "W": W, "chunkings": chunkings(4, True)})
+                         "cat_ids": cid, "agg": agg, "zdtype": zdtype,
+                         "vdtype": vdtype, "H": H, "W": W, "chunkings": chunkings(3, True)})
         # crosstab 3-D (Dask supports agg='count' only)
         L = rng.choice([2, 3])
         vals3 = [[[rng.choice(valpha) for _ in range(W)] for _ in range(H)] for _ in range(L)]
